@@ -376,3 +376,51 @@ func ZZVerif_C09_TwoRoots() {
 	}
 	zzverif.Reach("both")
 }
+
+// ZZVerif_C09_FinalizedRootTwice: the same querier is asked twice for the latest finalized L1 info root while the L1 info
+// syncer makes progress (and the finalized block moves or stays). Each answer is the root of the leaves at or below
+// min(finalized block, last processed block) at the time of the question - never a remembered earlier one.
+func ZZVerif_C09_FinalizedRootTwice() {
+	nl := zzverif.Param("NL")
+	ctx := context.Background()
+	syn := &zzL1Syncer{}
+	for j := 0; j < nl; j++ {
+		lf := l1infotreesync.L1InfoTreeLeaf{BlockNumber: uint64(10 * (j + 1)), L1InfoTreeIndex: uint32(j), PreviousBlockHash: zzverif.Hash("parent"),
+			Timestamp: zzverif.U64("ts"), MainnetExitRoot: zzverif.Hash("mer"), RollupExitRoot: zzverif.Hash("rer")}
+		lf.GlobalExitRoot = crypto.Keccak256Hash(lf.MainnetExitRoot[:], lf.RollupExitRoot[:])
+		lf.Hash = lf.GetHash()
+		syn.leaves = append(syn.leaves, lf)
+		syn.hashes = append(syn.hashes, lf.Hash)
+	}
+	salt := common.Hash(zzverif.Hash("chainSalt"))
+	hdr := func(n uint64) *ethtypes.Header {
+		return &ethtypes.Header{Number: new(big.Int).SetUint64(n), ParentHash: salt, Time: n}
+	}
+	l1c := &zzL1Client{hashOf: hdr}
+	lq := query.NewL1InfoTreeDataQuerier(l1c, syn)
+	// finalized block and last processed block: the block of some leaf plus an offset below the next leaf's block; both never
+	// move backwards between the two questions
+	pf, pp := 0, 0
+	pfo, ppo := uint64(0), uint64(0)
+	for step := 0; step < 2; step++ {
+		fa := zzverif.Int("finalizedLeaf", pf, nl-1)
+		pa := zzverif.Int("processedLeaf", pp, nl-1)
+		fo, po := uint64(5*zzverif.Int("finalizedOffset", 0, 1)), uint64(5*zzverif.Int("processedOffset", 0, 1))
+		zzverif.Assume((fa > pf || fo >= pfo) && (pa > pp || po >= ppo))
+		pf, pp, pfo, ppo = fa, pa, fo, po
+		l1c.finalized, syn.processed = uint64(10*(fa+1))+fo, uint64(10*(pa+1))+po
+		syn.blockHash = hdr(syn.processed).Hash()
+		root, leaf, err := lq.GetLatestFinalizedL1InfoRoot(ctx)
+		covered := fa + 1
+		if pa < fa {
+			covered = pa + 1
+		}
+		zzverif.Assert("answer", err == nil && root != nil && leaf != nil)
+		if err != nil || root == nil || leaf == nil {
+			return
+		}
+		zzverif.Assert("the root and leaf are those of the leaves at or below min(finalized, processed) now", root.Index == uint32(covered-1) &&
+			root.Hash == syn.rootAt(uint32(covered-1)) && leaf.L1InfoTreeIndex == uint32(covered-1))
+	}
+	zzverif.Reach("both")
+}
